@@ -44,13 +44,17 @@ def tie(tier, seed, replay):
         for k, inp in enumerate(r["case"]["inputs"]):
             if r["spec"] and r["spec"][k] is not None and len(r["spec"][k]) > sum(len(v) for v in inp.values()):
                 distinct.add((r["text"], json.dumps(inp, sort_keys=True)))
+    # aggregates / negation over LATTICE relations ("one row per key for a lattice"), serial and parallel (gen/c04_lat.py)
+    from .. import c04_lat
+    lat = c04_lat.run(tier, seed, modes=("serial", "par"), tag="c04lat")
+    mism += lat["mismatches"]
     sample = [dict(program=r["text"], summary=r["summary"], input=r["case"]["inputs"][0],
                    impl={k: v[1][:6] for k, v in prog.canon_snap(r["impl"][0]["snaps"][-1]).items()} if r["impl"] and "snaps" in r["impl"][0] else r["impl"])
               for r in results[:3]]
-    return dict(evaluations=sum(len(r["case"]["inputs"]) for r in results), distinct_nontrivial=len(distinct),
-                rule="random stratified programs: relations on 2-3 levels, rules of level L aggregate (count/sum/min/max) or negate relations of lower levels with every mix of key / wildcard / aggregated columns, results feed higher levels; x 3-4 inputs; non-trivial = the run derives at least one fact; distinct = distinct (program, input)",
+    return dict(evaluations=sum(len(r["case"]["inputs"]) for r in results) + lat["evaluations"], distinct_nontrivial=len(distinct) + lat["distinct"],
+                rule="(a) lattice family (impl vs python Kleene + aggregate oracle, no model column): a 2-key lattice raised over many iterations of a recursive stratum (capped longest walks / shortest paths) aggregated (count, sum, min, max, negation) through every index shape (first / second key column bound, nothing bound, all key columns bound, a derived unary-key lattice), ascent! and ascent_par! (pools 1, 3, 8, with / without inter_rule_parallelism, perturbation seeds); (b) random stratified programs: relations on 2-3 levels, rules of level L aggregate (count/sum/min/max) or negate relations of lower levels with every mix of key / wildcard / aggregated columns, results feed higher levels; x 3-4 inputs; non-trivial = the run derives at least one fact; distinct = distinct (program, input)",
                 samples=sample, distribution=dict(programs=len(results), features=feats), mismatches=mism,
                 trusted_base=["FRONT hook + gen/dl.py plan translation; gen/prog.py generated crates; python stratification (Tarjan) feeding the Coq oracle strat_fix, checked by Strat.stratified inside Coq",
                               "code generation from MIR to Rust is modelled by hand in Engine/Eval.v and tied by these runs"],
                 assumptions=["aggregator semantics as in Agg/AggModel.v (C17)", "small i32 values; count results converted with `as i32`"],
-                extra=dict(cases_skipped_model_too_slow=nskipped, plans_validated=sum(1 for r in results if r["valid"] is True)))
+                extra=dict(lattice_aggregate_runs=lat["evaluations"], lattice_aggregate_distribution=lat["distribution"], cases_skipped_model_too_slow=nskipped, plans_validated=sum(1 for r in results if r["valid"] is True)))
